@@ -476,6 +476,10 @@ CMAP_SHAPES = {
     'top': [0x41, 0xFFFD, 0xFFFE],
     'run20': list(range(0x100, 0x114)),
     'astral': [0x41, 0x42, 0xFFFF, 0x10000, 0x10001, 0x1F600],
+    # format 2 (mixed one/two-byte encodings): one-byte codes with a hole, two lead bytes, a hole inside a two-byte range
+    'dbcs': [0x41, 0x43, 0x8140, 0x8142, 0x8143, 0x8240],
+    'dbcs-only': [0x8140, 0x8141, 0x8143, 0x9F40],
+    'sbcs': [0x20, 0x21, 0x24],
 }
 
 
@@ -524,6 +528,28 @@ def spec_cmap4(d, c):
     return 0
 
 
+def spec_cmap2(d, c):
+    """glyph id for the one- or two-byte code c from a format 2 subtable (OpenType spec, 'high-byte mapping through table')"""
+    def sub(k, low):
+        o = 518 + 8 * k
+        first, count = int(be_uint(d[o:o + 2])), int(be_uint(d[o + 2:o + 4]))
+        if low < first or low >= first + count:
+            return 0
+        delta = be_uint(d[o + 4:o + 6])
+        p = o + 6 + int(be_uint(d[o + 6:o + 8])) + 2 * (low - first)
+        g = be_uint(d[p:p + 2])
+        return ite(eq(g, 0), 0, (g + delta) & 0xFFFF)
+    if c < 256:
+        if int(be_uint(d[6 + 2 * c:8 + 2 * c])) != 0:
+            return 0                      # c is a lead byte, not a character
+        return sub(0, c)
+    hi, low = c >> 8, c & 0xFF
+    k = int(be_uint(d[6 + 2 * hi:8 + 2 * hi])) // 8
+    if k == 0:
+        return 0                          # hi is a one-byte character: no two-byte code starts with it
+    return sub(k, low)
+
+
 def spec_cmap12(d, c):
     ngroups = int(be_uint(d[12:16]))
     for i in range(ngroups):
@@ -534,19 +560,24 @@ def spec_cmap12(d, c):
     return 0
 
 
-@kernel('C02', funcs=['ttLib/tables/_c_m_a_p.py:cmap_format_4.compile', 'ttLib/tables/_c_m_a_p.py:splitRange', 'ttLib/tables/_c_m_a_p.py:cmap_format_4.decompile',
+@kernel('C02', funcs=['ttLib/tables/_c_m_a_p.py:cmap_format_2.compile', 'ttLib/tables/_c_m_a_p.py:cmap_format_2.setIDDelta', 'ttLib/tables/_c_m_a_p.py:cmap_format_2.decompile',
+                      'ttLib/tables/_c_m_a_p.py:cmap_format_4.compile', 'ttLib/tables/_c_m_a_p.py:splitRange', 'ttLib/tables/_c_m_a_p.py:cmap_format_4.decompile',
                       'ttLib/tables/_c_m_a_p.py:cmap_format_12_or_13.compile', 'ttLib/tables/_c_m_a_p.py:cmap_format_12_or_13.decompile', 'ttLib/tables/_c_m_a_p.py:_make_map',
                       'ttLib/ttFont.py:getSearchRange'],
-        bounds='cmap subtables format 4 and 12: concrete code-point sets from 7 shapes (runs of 5/12/20, two runs, scattered, next to 0xFFFF, beyond the BMP) x '
+        bounds='cmap subtables format 4, 12 and 2: concrete code-point sets from 10 shapes (runs of 5/12/20, two runs, scattered, next to 0xFFFF, beyond the BMP; for format 2 '
+               'one-byte codes with a hole, two lead bytes, a hole inside a two-byte range) x '
                'SYMBOLIC glyph ids a + i (i < k) and b + (i - k) (i >= k), a, b in [1, 60000] (b either continues the a-run or is clear of it), k from the parameter: the character -> glyph '
-               'mapping read back by a reader written from the spec (segment search, idDelta mod 65536, idRangeOffset indexing; sequential groups) equals the '
+               'mapping read back by a reader written from the spec (segment search, idDelta mod 65536, idRangeOffset indexing; sequential groups; format 2 subHeaderKeys, '
+               'firstCode/entryCount window, idRangeOffset relative to its own word, idDelta applied to non-zero entries only) equals the '
                'input for every code in the map and gives "missing" for the neighbouring codes; fontTools\' own decompile returns the same map; format 4 header '
                'search fields per spec',
         shims=['struct', 'array'],
         quick=[dict(fmt=4, shape='run12', k=k) for k in (0, 3, 6)] + [dict(fmt=4, shape='run5', k=2), dict(fmt=4, shape='two-runs', k=1), dict(fmt=4, shape='two-runs', k=5), dict(fmt=4, shape='scattered', k=2), dict(fmt=4, shape='top', k=1),
-                                                                     dict(fmt=12, shape='astral', k=3), dict(fmt=12, shape='run5', k=2)],
+                                                                     dict(fmt=12, shape='astral', k=3), dict(fmt=12, shape='run5', k=2),
+                                                                     dict(fmt=2, shape='dbcs', k=2), dict(fmt=2, shape='dbcs-only', k=1)],
         thorough=[dict(fmt=4, shape=s, k=k) for s in ('run12', 'run5', 'two-runs', 'scattered', 'top', 'run20') for k in (0, 1, 2, 3, 5, 6, 9, 11) if k < len(CMAP_SHAPES[s])]
-        + [dict(fmt=12, shape=s, k=k) for s in ('astral', 'run5', 'two-runs', 'scattered') for k in (0, 1, 2, 3)], conc_cap=80, max_paths=100000)
+        + [dict(fmt=12, shape=s, k=k) for s in ('astral', 'run5', 'two-runs', 'scattered') for k in (0, 1, 2, 3)]
+        + [dict(fmt=2, shape=s, k=k) for s in ('dbcs', 'dbcs-only', 'sbcs') for k in (0, 1, 2, 3)], conc_cap=80, max_paths=100000)
 def cmap_roundtrip(fmt, shape, k):
     codes = CMAP_SHAPES[shape]
     a = V.int('a', 1, 60000)
@@ -561,11 +592,11 @@ def cmap_roundtrip(fmt, shape, k):
     data = st.compile(font)
     observe('length', len(tobytes(data)))
     d = blist(data)
-    spec = spec_cmap4 if fmt == 4 else spec_cmap12
-    ob('spec:length-field', eq(be_uint(d[2:4]) if fmt == 4 else be_uint(d[4:8]), len(d)))
+    spec = {4: spec_cmap4, 12: spec_cmap12, 2: spec_cmap2}[fmt]
+    ob('spec:length-field', eq(be_uint(d[2:4]) if fmt != 12 else be_uint(d[4:8]), len(d)))
     ob('spec:mapped-codes', conj([eq(spec(d, c), g) for c, g in zip(codes, gids)]))
     near = sorted({c + dd for c in codes for dd in (-1, 1)} - set(codes))
-    near = [c for c in near if 0 <= c <= (0xFFFE if fmt == 4 else 0x10FFFF)]
+    near = [c for c in near if 0 <= c <= (0xFFFE if fmt != 12 else 0x10FFFF)]
     ob('spec:unmapped-neighbours-are-missing', conj([eq(spec(d, c), 0) for c in near]))
     if fmt == 4:
         n = int(be_uint(d[6:8])) // 2
